@@ -34,7 +34,7 @@ def operands : Expr → List Nat
   | .math _ args => args
   | .as h _ _ => [h]
   | .arrayLength h => [h]
-  | .alias h => [h]
+  | .alias _ => []      -- DXIL-internal SSA kinds may point at phis appended to the end of the arena
   | _ => []
 
 structure Ctx where
